@@ -19,7 +19,7 @@ def run(tier, seed, only=None):
                        'list kinds under a step contract: IPv4 prefix lists (with and without add-path), path-attribute TLV stream; cluster list / '
                        'communities / AS_PATH / large communities on enumerated shapes; OPEN capabilities on enumerated packagings (C14); '
                        'MP families, BGP-LS and Prefix-SID TLV streams: termination only (C11), not claimed here']
-    units = UU.step_units((ID,))
+    units = UU.step_units((ID,)) + UU.coupled_order_units((ID,))
     units += [u for u in UU.update_units((ID,)) if u.name in ('Update.parse', 'Update.parse_prefix_list')]
     units += [u for u in UU.units((ID,)) if u.name in ('ClusterList.parse', 'Community.parse', 'ASPath.parse', 'LargeCommunity.parse')]
     for u in units:
@@ -27,7 +27,7 @@ def run(tier, seed, only=None):
             continue
         u.props = (ID,)
         run.run_unit(u, prog)
-        if u.kind != 'step':
+        if u.kind != 'step' and 'coupled' not in u.name:
             run.vacuity_check(u)
     run.triage_all(known)
     run.replay_findings()
